@@ -344,3 +344,17 @@ pub fn announce_deleted_data_reader_stub<R: DdsRuntime>(_p: &mut DcpsDomainParti
 /// the real function is a no-op on a participant that is not enabled; harnesses that set `enabled = true`
 /// directly (ignore_participant requires it) cut the announcement out with this stub.
 pub fn announce_participant_stub<R: DdsRuntime>(_p: &mut DcpsDomainParticipant, _runtime: &R) {}
+
+/// Instantiates the (recursive) drop glue of `xtypes::type_object::TypeIdentifier` in the harness binary, so that the
+/// per-property CBMC option `--unwindset <drop_glue::<TypeIdentifier>>:1` (vlib/ptab/part1.py) names an existing
+/// function in EVERY harness of the property (CBMC rejects an unwindset entry for a function that is not in the
+/// program). Dropping a `TkNone` identifier does nothing.
+pub fn link_drop_glue() {
+    let t = crate::xtypes::type_object::TypeIdentifier::TkNone;
+    let keep: bool = kani::any();
+    if keep {
+        core::mem::forget(t);
+    } else {
+        core::mem::drop(t);
+    }
+}
